@@ -110,6 +110,18 @@ pub fn judge2(rep: &mut Rep, req: &ctap2::Request, tag: &str) {
             }
         }
     }
+    // the generic entry point must delegate to the (possibly overridden) protocol-specific one
+    {
+        let mut m = crate::mock::MockOverride::default();
+        let r = guard(|| <crate::mock::MockOverride as Rpc<ctap2::Error, ctap2::Request, ctap2::Response>>::call(&mut m, req));
+        if r != Ok(Err(ctap2::Error::VendorFirst)) || m.dispatched2 != 1 || !m.inner.log.is_empty() {
+            rep.violation(
+                &format!("C10|ctap2|{}|rpc-call-bypasses-call_ctap2", handler),
+                format!("Rpc::call on an authenticator that overrides call_ctap2: result {:?}, override called {} times, handlers called directly: {:?}", r.map(|x| short(&x)), m.dispatched2, m.inner.log.iter().map(|l| l.0).collect::<Vec<_>>()),
+                &[],
+            );
+        }
+    }
     if rep.light && !matches!(req, ctap2::Request::LargeBlobs(_)) {
         return;
     }
@@ -156,6 +168,17 @@ pub fn judge1(rep: &mut Rep, req: &ctap1::Request, tag: &str) {
 }
 
 pub fn judge1_with(rep: &mut Rep, req: &ctap1::Request, tag: &str, errors: &[Option<ctap1::Error>]) {
+    {
+        let mut m = crate::mock::MockOverride::default();
+        let r = guard(|| <crate::mock::MockOverride as Rpc<ctap1::Error, ctap1::Request, ctap1::Response>>::call(&mut m, req));
+        if r != Ok(Err(ctap1::Error::UnspecifiedCheckingError)) || m.dispatched1 != 1 || !m.inner.log.is_empty() {
+            rep.violation(
+                "C10|ctap1|rpc-call-bypasses-call_ctap1",
+                format!("Rpc::call on an authenticator that overrides call_ctap1: result {:?}, override called {} times", r.map(|x| short(&x)), m.dispatched1),
+                &[],
+            );
+        }
+    }
     for (bi, fail) in errors.iter().cloned().enumerate() {
         if rep.light && bi >= 2 {
             break;
